@@ -197,6 +197,18 @@ func TestVerifC01(t *testing.T) {
 				pDeliver, pByz, pTimeout, pPart = 600, 200, 120, 8
 			}
 			o.Stat(fmt.Sprintf("chaos-level.%d", level))
+			// 45% of the cases start with round-structured adversarial rounds (vfattack_test.go) at
+			// the first one or two heights, then continue with the random scheduler below
+			if r.Chance(45) {
+				o.Stat("schedule.structured")
+				for hh := 0; hh < r.Pick(1, 1, 2) && viol == ""; hh++ {
+					net.structuredHeight(o, r.Pick(3, 4, 5, 6))
+					viol = vfCheckAgreement(net, decided)
+				}
+				level = 0
+				pDeliver, pByz, pTimeout, pPart = 900, 40, 5, 0
+				steps = 1200
+			}
 			for s := 0; s < steps && viol == ""; s++ {
 				net.drain()
 				x := r.Intn(1000)
